@@ -108,6 +108,7 @@ class Ctx:
                 "traceback": tb,
                 "shard": self.shard.get("id"),
                 "pyopt": bool(self.shard.get("pyopt")),
+                "env": self.shard.get("env"),
             }
         else:
             f["count"] += 1
